@@ -236,7 +236,12 @@ fn expected(shape: Shape, n: u64) -> (usize, Option<usize>) {
 static PINNED_SLOW_BLOCK: AtomicU64 = AtomicU64::new(u64::MAX);
 
 fn run_shape(args: &Args, report: &mut Report, rng: &mut Rng, case: u64, forced: Option<(Shape, u64, BatchMode, Layout)>) {
-    let pinned = forced.is_some();
+    run_shape_ext(args, report, rng, case, forced, true)
+}
+
+fn run_shape_ext(args: &Args, report: &mut Report, rng: &mut Rng, case: u64, forced: Option<(Shape, u64, BatchMode, Layout)>, forced_is_pinned: bool) {
+    let is_forced = forced.is_some();
+    let pinned = is_forced && forced_is_pinned;
     let (shape, n, batch, layout) = forced.unwrap_or_else(|| {
         let shape = *rng.pick(&SHAPES);
         let big = if args.thorough { 30_000 } else { 6_000 };
@@ -255,7 +260,9 @@ fn run_shape(args: &Args, report: &mut Report, rng: &mut Rng, case: u64, forced:
         };
         (shape, n, tiny_batch(rng), layout)
     });
-    let policy = if pinned {
+    let policy = if is_forced && !pinned {
+        Policy::none()
+    } else if pinned {
         match PINNED_SLOW_BLOCK.load(Ordering::SeqCst) {
             u64::MAX => Policy::none(),
             b => Policy { name: format!("slow-receiver-block-{b}"), slow_recv_blocks: vec![(b, 200)], ..Default::default() },
@@ -335,7 +342,7 @@ fn run_shape(args: &Args, report: &mut Report, rng: &mut Rng, case: u64, forced:
             // the pinned F8 input terminated: the finding did not reproduce in this run
             report.count("pinned_f8_terminated", 1);
         }
-        report.case(Verdict::Held, (n > 200).then_some(h), || witness.clone());
+        report.case(Verdict::Held, (n > 200 || is_forced).then_some(h), || witness.clone());
     } else {
         let mut d = witness.clone();
         d["error"] = json!(errs.join(" || "));
@@ -409,6 +416,38 @@ fn run_random_programs(args: &Args, report: &mut Report, rng: &mut Rng, first_ca
         }
     }
     case_no
+}
+
+/// C18, "the choice of batch mode never changes a job's result": loop shapes whose rounds carry
+/// many messages per replica (but stay far below the volume of finding F8), each under every
+/// batch mode; the sinks must deliver the same counts, and a job that never returns under one
+/// mode is a violation (quiescence certificate).
+pub fn run_c18_loops(args: &Args, report: &mut Report) {
+    let mut rng = Rng::new(args.seed).fork(0xC18F).fork(args.shard);
+    let cases = if args.thorough { 12 } else { 2 };
+    let modes = [
+        BatchMode::default(),
+        BatchMode::single(),
+        BatchMode::fixed(1),
+        BatchMode::fixed(5),
+        BatchMode::fixed(1024),
+        BatchMode::adaptive(1, Duration::from_millis(50)),
+        BatchMode::adaptive(1024, Duration::from_millis(2)),
+    ];
+    let mut case_no = 1000u64;
+    for _ in 0..cases {
+        let shape = *rng.pick(&[Shape::IterateShuffleSmall, Shape::IterateForward, Shape::ReplayShuffle, Shape::ReplaySide]);
+        let n = 40 + rng.below(120);
+        let layout = rng.pick(&[Layout::Local(1), Layout::Local(2), Layout::Remote(vec![1, 1])]).clone();
+        for m in modes {
+            case_no += 1;
+            if case_no - 1000 <= args.skip {
+                continue;
+            }
+            let mut r = rng.fork(case_no);
+            run_shape_ext(args, report, &mut r, case_no, Some((shape, n, m, layout.clone())), false);
+        }
+    }
 }
 
 pub fn run(args: &Args, report: &mut Report) {
